@@ -41,7 +41,9 @@ Texts == { sg \o c \o u : sg \in {<<>>, <<45>>, <<43>>}, c \in Comp, u \in Units
          \cup { c1 \o <<104>> \o c2 \o <<109>> \o c3 \o <<115>> : c1 \in {<<49>>, <<50, 53>>}, c2 \in {<<48>>, <<53, 57>>, <<49, 46, 53>>}, c3 \in {<<48>>, <<53, 57>>, <<48, 46, 50, 53>>} }
          \cup { <<49, 115>> \o c \o <<109, 115>> \o <<50, 117, 115>> : c \in {<<49>>, <<57, 57, 57>>} }
          \cup { <<>>, <<49>>, <<115>>, <<49, 120>>, <<49, 32, 115>>, <<49, 115, 115>>, <<45>>, <<51,49,53,53,55,54,48,48,48,48,48,48,115>>, <<51,49,53,53,55,54,48,48,48,48,48,49,115>>,
-                <<56,55,54,54,48,48,48,48,104>>, <<56,55,54,54,48,48,48,49,104>>, <<49, 48, 48, 48, 110, 115>>, <<49, 53, 48, 48, 110, 115>> }
+                <<56,55,54,54,48,48,48,48,104>>, <<56,55,54,54,48,48,48,49,104>>, <<49, 48, 48, 48, 110, 115>>, <<49, 53, 48, 48, 110, 115>>,
+                \* large durations with a microsecond fraction (beyond what a binary64 number of seconds holds): 100000000000.000001s -100000000000.000001s 315575999999.999999s 87659999h59m59.999999s 9007199254.740993s 100000000000s1us 27777777h0.000001s
+                <<49,48,48,48,48,48,48,48,48,48,48,48,46,48,48,48,48,48,49,115>>, <<45,49,48,48,48,48,48,48,48,48,48,48,48,46,48,48,48,48,48,49,115>>, <<51,49,53,53,55,53,57,57,57,57,57,57,46,57,57,57,57,57,57,115>>, <<56,55,54,53,57,57,57,57,104,53,57,109,53,57,46,57,57,57,57,57,57,115>>, <<57,48,48,55,49,57,57,50,53,52,46,55,52,48,57,57,51,115>>, <<49,48,48,48,48,48,48,48,48,48,48,48,115,49,117,115>>, <<50,55,55,55,55,55,55,55,104,48,46,48,48,48,48,48,49,115>> }
 TextProgs == { Call("duration", <<Lit(S(x))>>) : x \in Texts }
 Init == prog = Lit(Null) /\ exp = Null /\ aux = 0
 \* (the instant is chosen in a first step so that TLC's workers share the expansion over zones)
